@@ -30,10 +30,12 @@ struct Form {
     body: &'static str,
     /// the body contains its own function/lambda and must stay at top level
     top_only: bool,
+    /// the assignment runs inside a task: operand pairs that end in a runtime error are left out
+    no_err: bool,
 }
 
 fn forms() -> Vec<Form> {
-    let f = |tag, target, captured, decls, body, top_only| Form { tag, target, captured, decls, body, top_only };
+    let f = |tag, target, captured, decls, body, top_only| Form { tag, target, captured, decls, body, top_only, no_err: false };
     vec![
         f("let", "let", false, "", "let x = {OLD}\nx {OP} {RHS}\nprintln(x)\n", false),
         f("var", "var", false, "", "var x = {OLD}\nx {OP} {RHS}\nprintln(x)\n", false),
@@ -106,6 +108,61 @@ fn forms() -> Vec<Form> {
         f("elem-of-captured", "elem", false, "", "let a = [{OLD}]\nlet fc = () -> {\n  a[0] {OP} {RHS}\n}\nfc()\nprintln(a[0])\n", true),
         f("field-of-captured", "field", false, "type Bx = { v: {TY} }\n", "let b = Bx({OLD})\nlet fc = () -> {\n  b.v {OP} {RHS}\n}\nfc()\nprintln(b.v)\n", true),
     ]
+}
+
+/// Element / field assignments inside a lambda, a nested lambda or a task whose target
+/// sub-expressions (array expression, index, nested index, `s.f[i]`, `a[i].f`) or right-hand side
+/// mention an outer binding (let, var, for variable, function parameter, match binding) that occurs
+/// NOWHERE ELSE in the lambda / task: the capture analysis must still find it.  All are accepted and
+/// the effect is read back afterwards (through the shared object; from inside the task via a channel).
+fn capture_only_forms() -> Vec<Form> {
+    // (tag, type decls, setup, variable name, variable value, variable type, assignment, read-back, target)
+    let positions: Vec<(&str, &str, &str, &str, &str, &str, &str, &str, &'static str)> = vec![
+        ("index", "", "let a = [{OLD}, {OLD}]", "i", "1", "int", "a[i] {OP} {RHS}", "a[1]", "elem"),
+        ("index-inner", "", "let a = [[{OLD}], [{OLD}, {OLD}]]", "i", "1", "int", "a[1][i] {OP} {RHS}", "a[1][1]", "elem"),
+        ("index-outer", "", "let a = [[{OLD}], [{OLD}, {OLD}]]", "i", "1", "int", "a[i][1] {OP} {RHS}", "a[1][1]", "elem"),
+        ("field-array-index", "type Hx = { f: array<{TY}> }\n", "let s = Hx([{OLD}, {OLD}])", "i", "1", "int", "s.f[i] {OP} {RHS}", "s.f[1]", "elem"),
+        ("elem-field-index", "type Bx = { v: {TY} }\n", "let a = [Bx({OLD}), Bx({OLD})]", "i", "1", "int", "a[i].v {OP} {RHS}", "a[1].v", "field"),
+        ("rhs-of-elem", "", "let a = [{OLD}, {OLD}]", "r", "{RHS}", "{TY}", "a[1] {OP} r", "a[1]", "elem"),
+        ("rhs-of-field", "type Bx = { v: {TY} }\n", "let b = Bx({OLD})", "r", "{RHS}", "{TY}", "b.v {OP} r", "b.v", "field"),
+        ("array-expr", "", "", "a", "[{OLD}, {OLD}]", "array<{TY}>", "a[1] {OP} {RHS}", "a[1]", "elem"),
+        ("struct-expr", "type Bx = { v: {TY} }\n", "", "b", "Bx({OLD})", "Bx", "b.v {OP} {RHS}", "b.v", "field"),
+    ];
+    let mut out = vec![];
+    for (ptag, tdecls, setup, var, val, vty, assign, read, target) in positions {
+        for runner in ["lambda", "nested-lambda", "task"] {
+            if runner == "task" && (ptag == "array-expr" || ptag == "struct-expr") {
+                continue; // the read-back inside the task would mention the variable a second time
+            }
+            let run = match runner {
+                "lambda" => format!("let fc = () -> {{\n  {assign}\n}}\nfc()\nprintln({read})\n"),
+                "nested-lambda" => format!("let fo = () -> {{\n  let fi = () -> {{\n    {assign}\n  }}\n  fi()\n}}\nfo()\nprintln({read})\n"),
+                _ => format!("let ch: channel<{{TY}}> = channel()\ntask {{\n  {assign}\n  ch.write({read})\n}}\nprintln(ch.read())\n"),
+            };
+            let inner = if setup.is_empty() { run } else { format!("{setup}\n{run}") };
+            let indent = |t: &str, n: usize| t.lines().map(|l| format!("{}{l}\n", "  ".repeat(n))).collect::<String>();
+            for kind in ["let", "var", "for", "param", "match"] {
+                let (decls, body) = match kind {
+                    "let" => (tdecls.to_string(), format!("let {var} = {val}\n{inner}")),
+                    "var" => (tdecls.to_string(), format!("var {var} = {val}\n{inner}")),
+                    "for" => (tdecls.to_string(), format!("for {var} in [{val}] {{\n{}}}\n", indent(&inner, 1))),
+                    "param" => (format!("{tdecls}fn hq({var}: {vty}) {{\n{}}}\n", indent(&inner, 1)), format!("hq({val})\n")),
+                    _ => (tdecls.to_string(), format!("match {val} {{\n  {var} -> {{\n{}  }}\n}}\n", indent(&inner, 2))),
+                };
+                let tag: &'static str = Box::leak(format!("only-in-{ptag}:{kind}:{runner}").into_boxed_str());
+                out.push(Form {
+                    tag,
+                    target,
+                    captured: false,
+                    decls: Box::leak(decls.into_boxed_str()),
+                    body: Box::leak(body.into_boxed_str()),
+                    top_only: true,
+                    no_err: runner == "task",
+                });
+            }
+        }
+    }
+    out
 }
 
 #[derive(Clone, Copy, PartialEq)]
@@ -193,19 +250,29 @@ fn main() {
     }
     let float_pairs: Vec<(f64, f64)> = vec![(10.0, 4.0), (-2.5, 0.5)];
     let mut jobs: Vec<Job> = vec![];
-    for form in forms() {
+    let quick = ctx.quick();
+    let mut all_forms = forms();
+    all_forms.extend(capture_only_forms());
+    for form in all_forms {
         for (opname, opsym) in OPS {
             for cx in [Ctxt::Top, Ctxt::Fn, Ctxt::Lam] {
                 if form.top_only && cx != Ctxt::Top {
                     continue;
                 }
-                for &(a, b) in &int_pairs {
+                let light = quick && form.tag.starts_with("only-in-");
+                for (pi, &(a, b)) in int_pairs.iter().enumerate() {
+                    if light && pi != 0 && pi != 3 {
+                        continue; // quick tier: (10, 3) and (5, 0) for the capture-only forms
+                    }
+                    if form.no_err && expected_int(opname, a, b).contains("err") {
+                        continue;
+                    }
                     let src = build(&form, opsym, &a.to_string(), &b.to_string(), "int", cx);
                     let req = format!("assign {} {} {} {} {} #{}", form.target, form.captured as u8, opname, a, b, form.tag);
                     jobs.push(Job { form: form.clone(), opname, src, req, cx, int: Some((a, b)), float: None });
                 }
                 if opname != "mod" {
-                    for &(a, b) in &float_pairs {
+                    for &(a, b) in float_pairs.iter().take(if light { 1 } else { 2 }) {
                         let src = build(&form, opsym, &format!("{a:?}"), &format!("{b:?}"), "float", cx);
                         let req = format!("assign {} {} {} - - #{}:float", form.target, form.captured as u8, opname, form.tag);
                         jobs.push(Job { form: form.clone(), opname, src, req, cx, int: None, float: Some((a, b)) });
